@@ -38,6 +38,7 @@ type Process struct {
 	sync.Mutex
 	globalEnv           []string
 	confMtx             sync.Mutex
+	nameMtx             sync.Mutex
 	procConf            *types.ProcessConfig
 	procState           *types.ProcessState
 	stateMtx            sync.Mutex
@@ -549,10 +550,15 @@ func (p *Process) getLogPath() string {
 }
 
 func (p *Process) getName() string {
+	p.nameMtx.Lock()
+	defer p.nameMtx.Unlock()
 	return p.procConf.ReplicaName
 }
 
+// setName is used when scaling changes the width of the replica names
 func (p *Process) setName(replicaName string) {
+	p.nameMtx.Lock()
+	defer p.nameMtx.Unlock()
 	p.procConf.ReplicaName = replicaName
 }
 
